@@ -2,7 +2,9 @@
  * mc.c: choice oracle, parallel stateless explorer with cost bound and
  * optional quiescent-state pruning.  Compiled WITHOUT sanitizers.
  */
+#ifndef _GNU_SOURCE
 #define _GNU_SOURCE
+#endif
 #include <errno.h>
 #include <fcntl.h>
 #include <sched.h>
